@@ -68,6 +68,13 @@ def stepLedger (toks : List String) : String :=
       match txFromRawBytes (lookupKey tbl) H b with
       | .ok t => showTxRes t
       | .error e => errStr e
+  | ["txm", b, _keys] =>             -- `tx` with the decoder's allocation measured by the harness
+    match ofHex b with
+    | none => "bad-op"
+    | some b =>
+      match txFromRawBytes (lookupKey tbl) H b with
+      | .ok t => showTxRes t
+      | .error e => errStr e
   | ["txprop", b, alt, trailing, _keys] =>
     match ofHex b, ofHex alt, ofHex trailing with
     | some b, some alt, some tr => txProp (lookupKey tbl) b alt tr
